@@ -11,7 +11,7 @@ open Pywbem.Model.Uri Pywbem.Proto Proofs.Uri
 /-- the escape chains extracted from the source of to_wbem_uri() (string values and reference values) are
     backslash first, then double quote; every theorem below is about these chains -/
 theorem C07_escape_chain_pinned :
-    Pywbem.Generated.uriEscapeChain = [('\\', ['\\', '\\']), ('"', ['\\', '"'])] ∧
+    Pywbem.Generated.uriEscapeChain = [('\\', ['\\', '\\']), (dq, ['\\', dq])] ∧
     Pywbem.Generated.uriRefEscapeChain = Pywbem.Generated.uriEscapeChain ∧
     Pywbem.Generated.uriFormats = ["standard", "canonical", "cimobject", "historical"] := by
   refine ⟨?_, ?_, ?_⟩ <;> decide
@@ -237,7 +237,7 @@ theorem C07_text_without_equals_is_no_uri (T : Tab) (s : Str) (h : '=' ∉ s) : 
     newline or `=`, is not itself a URI, and the `.dt s` clause of `PathSafe` / `PathOk` holds: the earlier hypotheses
     "no quote/backslash/newline" and "not a URI" of that clause are discharged. -/
 theorem C07_datetime_value_safe (T : Tab) (fmt : Fmt) (s : Str) (h : dtAccepts s = true) :
-    (∀ c ∈ s, c ≠ '"' ∧ c ≠ '\\' ∧ c ≠ '\n' ∧ c ≠ '=') ∧ NotUri T s ∧ ValSafe T fmt (.dt s) ∧ ValOk T fmt (.dt s) :=
+    (∀ c ∈ s, c ≠ dq ∧ c ≠ '\\' ∧ c ≠ '\n' ∧ c ≠ '=') ∧ NotUri T s ∧ ValSafe T fmt (.dt s) ∧ ValOk T fmt (.dt s) :=
   ⟨fun c hc => dtChar_props (dtAccepts_chars h c hc),
    notUri_of_no_eq T (fun hm => (dtChar_props (dtAccepts_chars h _ hm)).2.2.2 rfl),
    (dt_safe_of_accepts T fmt h).1, (dt_safe_of_accepts T fmt h).2⟩
@@ -261,6 +261,64 @@ theorem C07_canonical_respects_eq_of_parsed (T : Tab) (hfl : ∀ s, T.foldS (T.l
 example : okIs (fromUri asciiTab "C.k=1,j=TRUE,K=2".toList)
     (.mk none none ['C'] (.cons ['K'] (.int 2) (.cons ['j'] (.bool true) .nil))) = true := by decide +kernel
 example : okIs (fromUri asciiTab "C.k=1,k=3".toList) (.mk none none ['C'] (.cons ['k'] (.int 3) .nil)) = true := by decide +kernel
+
+/-- **Printing is a normal form (second trip byte-identical).**  For standard / historical / canonical and every path
+    that satisfies the NocaseDict invariant (no other hypothesis): printing the path that comes back from the parser
+    gives exactly the same text again — `to(from(to(p))) = to(p)`; names are already cased, keys already sorted, the real
+    literal already has its `.0`, nested references likewise (induction over nesting). -/
+theorem C07_second_print_identical (T : Tab) (hT : TabOk T) (fmt : Fmt) (hf : fmt ≠ .cimobject) (p : Path) (hw : PathWF T p) :
+    toUri T fmt (normPath T fmt p) = toUri T fmt p :=
+  path_second hT hf p hw
+
+/-- … combined with the round trip: the second trip returns the same text and the same path -/
+theorem C07_second_trip_partial (T : Tab) (hT : TabOk T) (fmt : Fmt) (p : Path) (hs : PathSafe T fmt p) (hw : PathWF T p) :
+    ∃ q, fromUri T (toUri T fmt p) = .ok q ∧ toUri T fmt q = toUri T fmt p ∧ fromUri T (toUri T fmt q) = .ok q := by
+  have hf : fmt ≠ .cimobject := by cases p; exact (by simpa [PathSafe] using hs : HeadSafe T fmt _ _ _ ∧ _).1.fmt_ok
+  have h1 := C07_uri_roundtrip_partial T hT fmt p hs
+  have h2 := C07_second_print_identical T hT fmt hf p hw
+  exact ⟨_, h1, h2, by rw [h2]; exact h1⟩
+
+example : toUri asciiTab .canonical (normPath asciiTab .canonical demoP) = toUri asciiTab .canonical demoP := by decide +kernel
+
+/-- class paths: the re-parsed class path `==` the original (`classEqB` mirrors CIMClassName.__eq__) -/
+theorem C07_class_roundtrip_eq_partial (T : Tab) (hT : TabOk T) (fmt : Fmt) (p : ClassPath)
+    (hs : HeadSafe T fmt p.host p.ns p.cls) :
+    ∃ q, fromUriClass T (toUriClass T fmt p) = .ok q ∧ classEqB T q p = true := by
+  refine ⟨_, C07_class_roundtrip_partial T hT fmt p hs, ?_⟩
+  have hc : T.lowerS (caseOf T fmt p.cls) = T.lowerS p.cls := by
+    unfold caseOf; split
+    · exact hT.lower_idem _
+    · rfl
+  simp [classEqB, eqName_of_optLower (optLower_case_self hT fmt p.host), eqName_of_optLower (optLower_case_self hT fmt p.ns), hc]
+
+/-! ### spellings of a URI that pywbem never prints but its parser accepts -/
+
+/-- **The namespace type (URI scheme) is ignored.**  For every non-empty scheme of `[\w-]` characters (`https`,
+    `cimxml-wbem`, anything) and every text that starts with `/`: `scheme:` in front of the text does not change what
+    either parser returns — result or ValueError.  (DSP0207 restricts the scheme; pywbem only warns.) -/
+theorem C07_scheme_is_ignored (T : Tab) (hT : TabOk T) (sch : Str) (hne : sch ≠ []) (hall : ∀ c ∈ sch, schemeChar T c = true)
+    (r : Str) :
+    fromUri T (sch ++ ':' :: '/' :: r) = fromUri T ('/' :: r) ∧
+    fromUriClass T (sch ++ ':' :: '/' :: r) = fromUriClass T ('/' :: r) :=
+  ⟨fromUri_congr (parseHead_scheme hT hne hall r), fromUriClass_congr (parseHead_scheme hT hne hall r)⟩
+
+/-- **Optional leading slash and colon of a local URI.**  With a well-formed namespace part `N` (or none) and class
+    name `C`: `/N:C…` and `N:C…` parse identically, and without namespace so do `/:C…`, `:C…` and `C…`
+    (`rest` = keybindings after the dot, or nothing for class paths). -/
+theorem C07_local_spellings_agree (T : Tab) (hT : TabOk T) (N : Option Str) (C rest : Str)
+    (hN : NsPart T N) (hc : ClsTail T C rest) :
+    fromUri T ('/' :: (optStr N ++ ':' :: (C ++ rest))) = fromUri T (optStr N ++ ':' :: (C ++ rest)) ∧
+    fromUriClass T ('/' :: (optStr N ++ ':' :: (C ++ rest))) = fromUriClass T (optStr N ++ ':' :: (C ++ rest)) ∧
+    (N = none → fromUri T (C ++ rest) = fromUri T (':' :: (C ++ rest)) ∧
+                fromUriClass T (C ++ rest) = fromUriClass T (':' :: (C ++ rest))) :=
+  ⟨fromUri_congr (parseHead_local_spellings hT hN hc).1, fromUriClass_congr (parseHead_local_spellings hT hN hc).1,
+   fun h => ⟨fromUri_congr ((parseHead_local_spellings hT hN hc).2 h), fromUriClass_congr ((parseHead_local_spellings hT hN hc).2 h)⟩⟩
+
+example : okIs (fromUri asciiTab "cimxml-wbems://acme.com:5989/root/cimv2:CIM_Foo.k=1".toList)
+    (.mk (some "acme.com:5989".toList) (some "root/cimv2".toList) "CIM_Foo".toList (.cons ['k'] (.int 1) .nil)) = true := by decide +kernel
+example : okIs (fromUri asciiTab "root/cimv2:CIM_Foo.k=1".toList)
+    (.mk none (some "root/cimv2".toList) "CIM_Foo".toList (.cons ['k'] (.int 1) .nil)) = true ∧
+  okIs (fromUri asciiTab "CIM_Foo.k=1".toList) (.mk none none "CIM_Foo".toList (.cons ['k'] (.int 1) .nil)) = true := by decide +kernel
 
 /-! ### glue around the URI functions -/
 
